@@ -189,7 +189,16 @@ func (g *ScopeGen) body(e *scopeEnv, n int, shadowed *bool) []string {
 			}
 			acc := accs[g.pick(len(accs))]
 			assign(lv)
-			lines = append(lines, fmt.Sprintf("for %s <- fromto(0, %d) %s = %s + %s", lv, 1+g.pick(3), acc, acc, lv))
+			if g.pick(3) == 0 {
+				// the bounds read a name, possibly the loop variable's own (bound outside, or not at all)
+				from := g.readable(e)
+				if g.pick(2) == 0 {
+					from = lv
+				}
+				lines = append(lines, fmt.Sprintf("for %s <- fromto(%s, %s + %d) %s = %s + %s", lv, from, from, 1+g.pick(3), acc, acc, lv))
+			} else {
+				lines = append(lines, fmt.Sprintf("for %s <- fromto(0, %d) %s = %s + %s", lv, 1+g.pick(3), acc, acc, lv))
+			}
 			e.locals[lv] = true
 		case 4: // conditional assignment of an already defined local
 			for _, nme := range ScopeNames {
